@@ -102,7 +102,7 @@ def check(case):
 
 @st.composite
 def cases(draw, tier="quick"):
-    return draw(c01.cases(tier, pools=POOLS))
+    return draw(c01.cases(tier, pools=POOLS, root_names=gen.ROOT_NAMES))
 
 
 def sweep_cases(tier):
